@@ -4,6 +4,8 @@ import (
 	"context"
 	"errors"
 	"fmt"
+	"os"
+	"path/filepath"
 	"runtime"
 	"strings"
 	"time"
@@ -195,6 +197,9 @@ func (r *rtRun) ask(s string) string { return r.c.Drv.Ask(s) }
 // take the same step (trying the possible `choice` values where Go's select is random).
 func (r *rtRun) doStep(label string, hasChoice bool, act func()) bool {
 	r.stepNo++
+	if r.traceFile != nil {
+		fmt.Fprintf(r.traceFile, "%d %s\n", r.stepNo, label)
+	}
 	act()
 	ok, dump := quiesce(3 * time.Second)
 	if !ok {
@@ -359,6 +364,13 @@ func runSchedule(c *Ctx, rng *RNG, cfg rtConfig) *rtRun {
 		skipInit: cfg.skipInit, delay: cfg.delay, suppress: cfg.suppress, cfg: cfg, kindCount: map[string]int{}, opCount: map[string]int{}}
 	rtCur = r
 	defer func() { rtCur = nil }()
+	if c.WorkDir != "" {
+		// the labels executed so far, written through step by step: what ./check shows when the process dies
+		if f, err := os.Create(filepath.Join(c.WorkDir, "current-trace.log")); err == nil {
+			r.traceFile = f
+			defer f.Close()
+		}
+	}
 	dials.SetVerifHook(r.hook)
 	defer dials.SetVerifHook(nil)
 	root, rootCancel := context.WithCancel(context.Background())
